@@ -134,7 +134,7 @@ var refNames = []string{"CLOSED", "OPEN", "HALF_OPEN"}
 
 type refEntry struct {
 	at     time.Time
-	result int // 0 success, 1 slow, 2 failure
+	result int // 0 success, 1 slow, 2 failure, 3 failure that may also count as slow, 4 success that may count as slow
 }
 
 type c08Ref struct {
@@ -158,25 +158,35 @@ func (m *c08Ref) transit(to int, now time.Time) {
 	m.trialRes = nil
 }
 
-func rates(res []int) (fail, slow, total int) {
+func rates(res []int) (fail, slowMin, slowMax, total int) {
 	for _, r := range res {
 		total++
 		switch r {
 		case 1:
-			slow++
+			slowMin++
+			slowMax++
 		case 2:
 			fail++
+		case 3:
+			fail++
+			slowMax++
+		case 4:
+			slowMax++
 		}
 	}
 	return
 }
 
-func (m *c08Ref) tripped(res []int) bool {
-	f, s, t := rates(res)
+// tripped tells whether the results can / must open the breaker (they differ
+// only when a result's slowness is a matter of reading, see result codes).
+func (m *c08Ref) tripped(res []int) (can, must bool) {
+	f, smin, smax, t := rates(res)
 	if t == 0 {
-		return false
+		return false, false
 	}
-	return f*100 >= int(m.p.Fail)*t || s*100 >= int(m.p.Slow)*t
+	must = f*100 >= int(m.p.Fail)*t || smin*100 >= int(m.p.Slow)*t
+	can = f*100 >= int(m.p.Fail)*t || smax*100 >= int(m.p.Slow)*t
+	return
 }
 
 // windowResults returns the results inside the sliding window at time now,
@@ -269,13 +279,24 @@ func (m *c08Ref) record(ep int, result int, now time.Time) []int {
 			m.window = m.window[len(m.window)-int(m.p.Size):]
 		}
 		b, e := m.windowResults(now)
-		vb := len(b) >= int(m.p.MinCalls) && m.tripped(b)
-		ve := len(e) >= int(m.p.MinCalls) && m.tripped(e)
-		if vb != ve {
+		canOpen, canHold := false, false
+		for _, w := range [][]int{b, e} {
+			can, must := m.tripped(w)
+			if len(w) < int(m.p.MinCalls) {
+				can, must = false, false
+			}
+			if can {
+				canOpen = true
+			}
+			if !must {
+				canHold = true
+			}
+		}
+		if canOpen && canHold {
 			m.ambiguous++
 			return []int{refClosed, refOpen}
 		}
-		if vb {
+		if canOpen {
 			return []int{refOpen}
 		}
 		return []int{refClosed}
@@ -286,19 +307,26 @@ func (m *c08Ref) record(ep int, result int, now time.Time) []int {
 		if min > m.p.Permitted {
 			min = m.p.Permitted
 		}
-		verdict := refClosed
-		if m.tripped(m.trialRes) {
-			verdict = refOpen
+		can, must := m.tripped(m.trialRes)
+		var verdicts []int
+		if can {
+			verdicts = append(verdicts, refOpen)
+		}
+		if !must {
+			verdicts = append(verdicts, refClosed)
+		}
+		if len(verdicts) == 2 {
+			m.ambiguous++
 		}
 		switch {
 		case k < min:
 			return []int{refHalfOpen}
 		case k >= m.p.Permitted:
-			return []int{verdict}
+			return verdicts
 		default:
 			// between min(minimumNumberOfCalls, permitted) and permitted the
 			// statement does not fix after which trial the verdict falls
-			return []int{verdict, refHalfOpen}
+			return append(verdicts, refHalfOpen)
 		}
 	}
 	return []int{m.state}
@@ -347,6 +375,7 @@ func c08Exec(r *sim.Run, sci interface{}) {
 	var hist strings.Builder
 	reachedOpen, reachedHalf, inflightMax, inflight := false, false, 0, 0
 	errFail := errors.New("backend failure")
+	skip := false
 
 	check := func(what string) {
 		if got := implState(w.State()); got != ref.state {
@@ -358,20 +387,22 @@ func c08Exec(r *sim.Run, sci interface{}) {
 		ops := sc.Callers[ci].Ops
 		r.Go(fmt.Sprintf("caller%d", ci), func() {
 			for oi, op := range ops {
-				if r.Violated() || r.Aborted() {
+				if r.Violated() || r.Aborted() || skip {
 					return
 				}
-				if op.GapUs > 0 {
-					time.Sleep(time.Duration(op.GapUs) * time.Microsecond)
-				}
+				r.Sleep(time.Duration(op.GapUs) * time.Microsecond)
 				op := op
 				admitted := false
 				var ep int
+				var measured time.Duration
 				handler := func(ctx context.Context) error {
 					// no gate between AcquirePermission returning and this
 					// point: the admission is logged in its effect order
 					admitted = true
 					now := time.Now()
+					if skip {
+						return nil
+					}
 					ans := ref.acquire(now)
 					ok := false
 					for _, a := range ans {
@@ -394,7 +425,9 @@ func c08Exec(r *sim.Run, sci interface{}) {
 					if inflight > inflightMax {
 						inflightMax = inflight
 					}
-					time.Sleep(time.Duration(op.DurUs) * time.Microsecond)
+					t0 := time.Now()
+					r.Sleep(time.Duration(op.DurUs) * time.Microsecond)
+					measured = time.Since(t0)
 					inflight--
 					switch op.Outcome {
 					case "fail":
@@ -417,6 +450,9 @@ func c08Exec(r *sim.Run, sci interface{}) {
 					err = w.Wrap(handler)(context.Background())
 				}()
 				now := time.Now()
+				if skip {
+					return
+				}
 				if !admitted {
 					ans := ref.acquire(now)
 					ok := false
@@ -438,10 +474,24 @@ func c08Exec(r *sim.Run, sci interface{}) {
 					continue
 				}
 				result := 0
+				slowThr := time.Duration(p.SlowMs) * time.Millisecond
 				if op.Outcome != "ok" {
 					result = 2
-				} else if op.DurUs >= p.SlowMs*1000 {
+					if measured >= slowThr {
+						// a failed call that was also slow: the statement does not say
+						// whether it also counts towards the slow-call rate
+						r.Probe("cb.failed_and_slow_result")
+						result = 3
+					}
+				} else if measured == slowThr {
+					// doc: slow when duration > threshold; code: >=
+					r.Probe("cb.duration_equals_threshold")
+					result = 4
+				} else if measured > slowThr {
 					result = 1
+				}
+				if skip {
+					return
 				}
 				allowed := ref.record(ep, result, now)
 				got := implState(w.State())
@@ -471,7 +521,7 @@ func c08Exec(r *sim.Run, sci interface{}) {
 	}
 	r.WaitTasks()
 	if ref.ambiguous > 0 {
-		r.Probe("cb.time_window_reading_ambiguous")
+		r.Probe("cb.verdict_ambiguous_by_reading")
 	}
 	if reachedOpen {
 		r.Probe("cb.reached_open")
